@@ -47,6 +47,8 @@ def bucket_union(table, c):
 
 
 def check(run):
+    from checks.main import defaults_bounded
+    defaults_bounded(run)      # default-value sweetening (bounded)
     raw = langs.native_tables(run.repo)
     for k, want in C09.PYYAML_PINS.items():
         if raw[k] != want:
